@@ -50,6 +50,10 @@ pub struct NCase {
     /// receive buffers larger than 64 KiB (buf_len + 65536)
     #[serde(default)]
     pub big: bool,
+    /// afterwards: this many receive rounds with buffers in flight all the time (more than 65536
+    /// take the receive queue's indices through their wrap)
+    #[serde(default)]
+    pub repeat: u32,
     pub ops: Vec<NOp>,
 }
 
@@ -325,7 +329,25 @@ fn run_ops(c: &NCase, mut d: Drv, dev: Shared<NetDev>, st: &mut Stats, buf_len: 
     let mut seed = 0u64;
     let (mut ooo_rx, mut recycled_other_order) = (false, false);
     let mut post_order: Vec<u16> = Vec::new();
-    for (i, op) in c.ops.iter().enumerate() {
+    let mut all_ops: Vec<NOp> = c.ops.clone();
+    if c.repeat > 0 {
+        if c.buffered {
+            for r in 0..c.repeat {
+                all_ops.push(NOp::Inject { pick: (r as u16).wrapping_mul(7919), len: 40 });
+                all_ops.push(NOp::Receive);
+                all_ops.push(NOp::Recycle(0));
+            }
+        } else {
+            all_ops.push(NOp::RxBegin);
+            all_ops.push(NOp::RxBegin);
+            for _ in 0..c.repeat {
+                all_ops.push(NOp::Inject { pick: 0, len: 40 });
+                all_ops.push(NOp::RxFinish);
+                all_ops.push(NOp::RxBegin);
+            }
+        }
+    }
+    for (i, op) in all_ops.iter().enumerate() {
         let what = format!("op #{} {:?}", i, op);
         world::with(|w| w.spins = 0);
         match op {
@@ -721,7 +743,7 @@ pub fn strategy() -> impl Strategy<Value = NCase> {
         prop::collection::vec(op(), 0..60),
         prop::bool::weighted(0.06),
     )
-        .prop_map(|(kind, offered, policy, buffered, nsel, buf_len, ops, big)| NCase { kind, offered, policy, buffered, nsel, buf_len, ops, big })
+        .prop_map(|(kind, offered, policy, buffered, nsel, buf_len, ops, big)| NCase { kind, offered, policy, buffered, nsel, buf_len, ops, big, repeat: 0 })
 }
 
 pub fn replay(_e: &str, case: &serde_json::Value) -> Result<(), String> {
@@ -729,7 +751,23 @@ pub fn replay(_e: &str, case: &serde_json::Value) -> Result<(), String> {
 }
 
 pub fn run(ctx: &Ctx) -> Report {
-    let (stats, failure) = run_proptest(ctx, "net", 161, ctx.n(150_000, 6_000_000), strategy, |c: &NCase, st| check(c, st));
+    // more than 65536 received frames with receive buffers in flight all the time
+    let items: Vec<NCase> = [(false, 1u8, 1u64 << 32), (true, 1, 1 << 32), (true, 0, 1 << 32 | 1 << 29), (false, 2, 1 << 28)]
+        .into_iter()
+        .map(|(buffered, nsel, offered)| NCase { kind: TK::Model, offered, policy: Serve::OnNotify, buffered, nsel, buf_len: 1600, ops: vec![], big: false, repeat: 66_000 })
+        .collect();
+    let (mut stats, mut failure) = crate::runner::run_items(ctx, "net", items, |c: &NCase, st| {
+        let r = check(c, st);
+        if r.is_ok() {
+            st.class("pipelined_run_of_more_than_65536_frames");
+        }
+        r
+    });
+    if failure.is_none() {
+        let (st, f) = run_proptest(ctx, "net", 161, ctx.n(150_000, 6_000_000), strategy, |c: &NCase, st| check(c, st));
+        stats.merge(st);
+        failure = f;
+    }
     Report {
         stats,
         failure,
